@@ -293,7 +293,10 @@ func (s *Session) RunBlock(p *BlockPlan) (*BlockResult, error) {
 				if r.Code != 0 {
 					failed = failedMsgIndex(r.Log)
 					if failed < 0 || failed >= len(t.Parts) {
-						return nil, fmt.Errorf("multi-message transaction failed outside its messages: %s", r.Log)
+						// refused before any message ran (admission): no specification action explains a transaction of the current
+						// proposer being refused inside a block
+						s.emit(s.BridgeW, "txrefused", Ev{"log": short(r.Log)})
+						continue
 					}
 				}
 				s.emit(s.BridgeW, "txbegin", Ev{"n": len(t.Parts)})
@@ -353,7 +356,8 @@ func (s *Session) RunBlock(p *BlockPlan) (*BlockResult, error) {
 				if r.Code != 0 {
 					failed = failedMsgIndex(r.Log)
 					if failed < 0 || failed >= len(t.Parts) {
-						return nil, fmt.Errorf("multi-message transaction failed outside its messages: %s", r.Log)
+						s.emit(s.RelW, "txrefused", Ev{"log": short(r.Log)})
+						continue
 					}
 				}
 				s.emit(s.RelW, "txbegin", Ev{"n": len(t.Parts)})
